@@ -85,6 +85,7 @@ class Engine(ExprMixin, CallMixin, StmtMixin):
         uses = kw.pop("uses", ())
         defaults = kw.pop("defaults", None)
         hints = kw.pop("cover_hints", ())
+        spawn_ensures = kw.pop("spawn_ensures", None)
         monitors = kw.pop("item_monitors", None)
         ghost_exit = kw.pop("ghost_exit", ())
         log_events = kw.pop("log_events", None)
@@ -100,6 +101,7 @@ class Engine(ExprMixin, CallMixin, StmtMixin):
         c.item_monitors = monitors or {}
         c.uses = tuple(uses)
         c.cover_hints = list(hints)
+        c.spawn_ensures = dict(spawn_ensures or {})
         c.defaults = defaults
         c._defaults = None
         if key in self.contracts:
@@ -384,6 +386,14 @@ class Engine(ExprMixin, CallMixin, StmtMixin):
             for i, r in enumerate(cc.requires):
                 self.emit("pre@spawn", f"{cc.key}#req{i + 1}", site, st, self.spec(r, pre, env=env, old=pre, isolate=True),
                           note=r if isinstance(r, str) else "")
+            # what the creator promises about the arguments it hands to the coroutine (its own names, `old(...)` for
+            # their values at entry; the spawned call's arguments as spawn_<parameter>)
+            extra = getattr(self.current, "spawn_ensures", {}).get(cc.key, ()) if self.current is not None else ()
+            if extra:
+                env2 = dict(st.env)
+                env2.update({"spawn_" + k: v for k, v in bound.items() if isinstance(v, V)})
+                for i, sp in enumerate(extra):
+                    self.emit("spawn-args", f"{cc.key}#arg{i + 1}", site, st, self.spec(sp, st, env=env2, old=st.old), note=sp)
         return st.set_meta("spawned", ())
 
     def check_normal_exit(self, c, o, entry, node):
